@@ -6,6 +6,7 @@ import Enc.Driver.Iso
 import Enc.Driver.Thrift
 import Enc.Driver.Json
 import Enc.Driver.JsonBuf
+import Enc.Driver.JsonStrHelpers
 import Enc.Driver.Conc
 import Enc.Driver.JsonRaw
 import Enc.Driver.JsonMapKeys
@@ -33,6 +34,7 @@ def dispatch (op : String) (args : List String) : Option (String × String × St
   else if op == "json.omitempty" then Driver.JsonOmit.handle op args
   else if op == "json.rawemit" then Driver.JsonRaw.handle op args
   else if op == "json.bufappend" then Driver.JsonBuf.handle op args
+  else if op == "json.strhelper" then Driver.JsonStrHelpers.handle op args
   else if op.startsWith "json." then Driver.Json.handle op args
   else none
 
